@@ -1,6 +1,7 @@
 // constraint-set operations of the line protocol (C08-C11, C17)
 #pragma once
 #include "common.h"
+#include "cfops.h"
 
 struct CSState {
   std::unique_ptr<ConstraintSet> cs;
@@ -77,6 +78,7 @@ static bool csCall(const std::string &name, Toks &t, Model &m, CSState &C, Vecto
     else if (method == 2) ForwardDynamicsConstraintsNullSpace(m, q, qd, tau, cs, x, u != 0, fe);
     else ForwardDynamicsContactsKokkevis(m, q, qd, tau, cs, x);
     o.vec(x); o.vec(cs.force);
+  } else if (name == "CF" || name == "CI") { cfCall(name, t, m, cs, q, qd, o);
   } else if (name == "IMP") {
     unsigned method = t.nat();
     VectorNd x = VectorNd::Zero(nv);
